@@ -202,14 +202,19 @@ AggSel(fn, q) ==
   ELSE { (CASE fn = "SUM" -> VSum(q, cb) [] fn = "AVERAGE" -> VAvg(q, cb)
             [] fn = "MAX" -> VMax(q, cb) [] fn = "MIN" -> VMin(q, cb)) : cb \in BOOLEAN }
 
-Outcome(sel) ==
-  LET d == PickSel(Data, sel, 1)  o == PickSel(rng, sel, 1)
+\* over the numeric data range (every selected cell is a number)
+DataOut(sel) ==
+  LET d == PickSel(Data, sel, 1)
+  IN  [count |-> Cardinality(sel),
+       dsum  |-> {VSum(d, FALSE)},  davg |-> {VAvg(d, FALSE)},
+       dmax  |-> {VMax(d, FALSE)},  dmin |-> {VMin(d, FALSE)}]
+\* over the criteria range itself (SUMIF(range, criterion) and friends)
+SelfOut(sel) ==
+  LET o == PickSel(rng, sel, 1)
   IN  [mask  |-> Mask(sel),
-       count |-> Cardinality(sel),
-       dsum  |-> AggSel("SUM", d),  davg |-> AggSel("AVERAGE", d),
-       dmax  |-> AggSel("MAX", d),  dmin |-> AggSel("MIN", d),
        osum  |-> AggSel("SUM", o),  oavg |-> AggSel("AVERAGE", o),
        omax  |-> AggSel("MAX", o),  omin |-> AggSel("MIN", o)]
+Outcome(sel) == DataOut(sel) @@ SelfOut(sel)
 
 Enumerable == Cardinality(Free) <= FreeMax
 Outcomes == IF Enumerable THEN {Outcome(sel) : sel \in SelSets} ELSE {}
@@ -245,7 +250,7 @@ TypeOK == /\ rng \in Seq(CellPool) /\ Len(rng) <= MaxCells
 Total ==
   /\ \A i \in 1..N : \A j \in 1..Len(crits) : Matches(CellAt(j, i), crits[j]) # {}
   /\ Must \subseteq May
-  /\ (Enumerable /\ N >= 1) => Outcomes # {}
+  /\ SelSets # {}
 
 \* the one-criterion ...IFS form is the ...IF form
 OneCriterion ==
@@ -309,7 +314,9 @@ StarLaw ==
 
 \* over numeric data AVERAGEIFS = SUMIFS / COUNTIFS (or #DIV/0! on nothing)
 AverageLaw ==
-  \A o \in Outcomes :
+  Enumerable =>
+  \A sel \in SelSets :
+     LET o == DataOut(sel) IN
      IF o.count = 0 THEN o.davg = {DIV0} /\ o.dmax = {Zero} /\ o.dmin = {Zero}
      ELSE \A a \in o.davg : \A x \in o.dsum :
              REq(R(a[2] * o.count, a[3]), x)
